@@ -50,6 +50,7 @@ type realSpec struct {
 	AddAt       time.Duration `json:"add_at"`             // a third alert joins group A
 	ResolveAt   time.Duration `json:"resolve_at"`         // the first alert of group A resolves
 	Length      time.Duration `json:"length"`
+	BigGroup    bool          `json:"big_group"`
 	Seed        int64         `json:"seed"`
 }
 
@@ -244,6 +245,13 @@ func runReal(sp *realSpec, dir string) (*realRun, string) {
 		{L("A", "3"), sp.AddAt, -1},
 		{L("B", "1"), 0, -1},
 	}
+	if sp.BigGroup {
+		// group B large enough for its log entry to exceed the 700-byte threshold above which the mesh
+		// sends an update directly to every peer instead of queueing it for gossip
+		for k := 2; k <= 120; k++ {
+			alerts = append(alerts, al{L("B", fmt.Sprint(k)), 0, -1})
+		}
+	}
 	if sp.Kind == "only-last-position-can-deliver" { // one long flush: a single state
 		alerts = []al{{L("A", "1"), 0, -1}, {L("A", "2"), 0, -1}, {L("B", "1"), 0, -1}}
 	}
@@ -404,6 +412,42 @@ func judgeReal(rr *realRun, sub *vf.Sub) []realVerdict {
 		}
 	}
 
+	// (e) in a healthy mesh every instance receives the log entry of every successful notification:
+	// the monitor must have seen, in every OTHER instance's log, an entry of that group with a timestamp
+	// not older than the notification, within 5 s (gossip interval 50 ms, direct sends for large entries)
+	if sp.Kind == "healthy" {
+		for _, y := range atts {
+			if y.Outcome != "ok" || y.End.After(rr.start.Add(sp.Length-6*time.Second)) {
+				continue
+			}
+			for _, name := range sp.Names {
+				if name == y.Instance {
+					continue
+				}
+				rr.mu.Lock()
+				seen := rr.seen[name+"|"+y.GroupKey]
+				rr.mu.Unlock()
+				got := false
+				var lat time.Duration
+				for _, e := range seen {
+					if !e.ts.Before(y.End) && e.seenAt.Before(y.End.Add(5*time.Second)) {
+						got, lat = true, e.seenAt.Sub(y.End)
+						break
+					}
+					// a newer entry of the group (written by a later notification) also proves delivery
+				}
+				sub.Count("entry_deliveries_judged", 1)
+				if got {
+					if lat > time.Second {
+						sub.Count("entry_deliveries_slower_than_1s", 1)
+					}
+					continue
+				}
+				out = append(out, realVerdict{"log-entry-of-a-notification-not-received-by-a-peer-in-a-healthy-mesh", with(map[string]any{"notification": desc(y), "peer": name, "entry_size_class": map[bool]string{true: "above 700 bytes (direct send)", false: "small (gossip queue)"}[sp.BigGroup && y.GroupKey == groupKeyOf("B")]})})
+			}
+		}
+	}
+
 	// (b) at least once: at the end of the run (a full flush cycle plus every cluster wait plus 4 s
 	// after the last change) the latest successful notification of each group lists exactly the alerts
 	// then firing, and the resolved alert was reported resolved.
@@ -414,7 +458,14 @@ func judgeReal(rr *realRun, sub *vf.Sub) []realVerdict {
 		resolvedA = ""
 	}
 	sort.Strings(wantA)
-	for gk, want := range map[string][]string{groupKeyOf("A"): wantA, groupKeyOf("B"): {model.Labels{"alertname": "B", "instance": "1"}.Key()}} {
+	wantB := []string{model.Labels{"alertname": "B", "instance": "1"}.Key()}
+	if sp.BigGroup {
+		for k := 2; k <= 120; k++ {
+			wantB = append(wantB, model.Labels{"alertname": "B", "instance": fmt.Sprint(k)}.Key())
+		}
+	}
+	sort.Strings(wantB)
+	for gk, want := range map[string][]string{groupKeyOf("A"): wantA, groupKeyOf("B"): wantB} {
 		var last *sim.Attempt
 		reported := false
 		for _, a := range atts {
@@ -495,6 +546,7 @@ func genRealSpec(r *rand.Rand, seed int64, i int) *realSpec {
 	names := []string{"peer-a", "peer-b", "peer-c"}[:sp.Size]
 	r.Shuffle(len(names), func(a, b int) { names[a], names[b] = names[b], names[a] })
 	sp.Names = names
+	sp.BigGroup = sp.Kind == "healthy" && r.Intn(2) == 0
 	sp.Failing = make([]bool, sp.Size)
 	sp.FailKind = []string{"recoverable", "unrecoverable"}[r.Intn(2)]
 	switch sp.Kind {
@@ -514,7 +566,7 @@ func genRealSpec(r *rand.Rand, seed int64, i int) *realSpec {
 
 func TestRealMesh(t *testing.T) {
 	run := vf.Cur()
-	sub := run.Sub("real-mesh-loopback", "2-3 unmodified instances with the REAL gossip mesh (memberlist on loopback, real Peer.Position / clusterWait / pipeline time-out extension / settle), real time; every instance is (re-)sent the same alerts once a second; kinds: healthy, position 0 cannot deliver (recoverable or unrecoverable errors), position 0 leaves gracefully mid-run, only the last position can deliver with a cluster wait (12 s) above the base pipeline time-out; a monitor polls every instance's notification log every 3 ms; judged: (a) no delivery starts earlier than position x peer_timeout after its flush tick while membership is complete, (b) at the end some instance has delivered the current state of every group and the resolution, (c) no instance repeats a state whose covering entry the monitor had seen in that instance's log before the flush tick; a miss of (b) must reproduce on 3 runs; non-trivial = >=2 successful notifications and every instance was ready with full membership; distinct by (seed)", 4)
+	sub := run.Sub("real-mesh-loopback", "2-3 unmodified instances with the REAL gossip mesh (memberlist on loopback, real Peer.Position / clusterWait / pipeline time-out extension / settle), real time; every instance is (re-)sent the same alerts once a second; kinds: healthy, position 0 cannot deliver (recoverable or unrecoverable errors), position 0 leaves gracefully mid-run, only the last position can deliver with a cluster wait (12 s) above the base pipeline time-out; a monitor polls every instance's notification log every 3 ms; judged: (a) no delivery starts earlier than position x peer_timeout after its flush tick while membership is complete, (b) at the end some instance has delivered the current state of every group and the resolution, (c) no instance repeats a state whose covering entry the monitor had seen in that instance's log before the flush tick, (e) in healthy runs (half of them with a 120-alert group whose log entry exceeds the 700-byte direct-send threshold) the entry of every successful notification is seen in every other instance's log within 5 s; a miss of (b) or (e) must reproduce on 3 runs; non-trivial = >=2 successful notifications and every instance was ready with full membership; distinct by (seed)", 4)
 	n := run.N(10, 200)
 	vf.Parallel(t, n, 10, func(t *testing.T, i int) {
 		r := sub.Rand(i)
@@ -538,7 +590,7 @@ func TestRealMesh(t *testing.T) {
 			verdicts = judgeReal(rr, sub)
 			timing := false
 			for _, v := range verdicts {
-				if v.sig == "no-instance-delivered-the-current-group-state" || v.sig == "no-instance-reported-the-resolved-alert" {
+				if v.sig == "no-instance-delivered-the-current-group-state" || v.sig == "no-instance-reported-the-resolved-alert" || v.sig == "log-entry-of-a-notification-not-received-by-a-peer-in-a-healthy-mesh" {
 					timing = true
 				}
 			}
